@@ -35,6 +35,7 @@ STDLIB_AXIOMS = {
 def setup_env():
     """Environment forced on every run of the implementation."""
     os.environ["PYTHONPATH"] = REPO
+    os.environ["PANDORA_REPO"] = REPO
     os.environ.setdefault("PYTHONHASHSEED", "0")
     os.environ["NUMBA_CACHE_DIR"] = os.path.join(VERIF, ".cache", "numba")
     os.environ.setdefault("NUMBA_NUM_THREADS", "4")
@@ -111,6 +112,25 @@ def to_q(x):
     if math.isinf(x):
         raise ValueError("inf is not a rational")
     return fractions.Fraction(*x.as_integer_ratio())
+
+
+def close(f, q, rel=2.0 ** -18, abs_=2.0 ** -18):
+    """bridging rule (b): float f (possibly NaN) against exact model value q (Fraction or None)"""
+    if q is None:
+        return f is None or (isinstance(f, float) and math.isnan(f))
+    if f is None or (isinstance(f, float) and (math.isnan(f) or math.isinf(f))):
+        return False
+    return abs(fractions.Fraction(float(f)) - q) <= max(fractions.Fraction(abs_), abs(q) * fractions.Fraction(rel))
+
+
+def coqchk(prop_id, timeout=1500):
+    """independent re-check of the compiled property file and everything it depends on (thorough tier)"""
+    rc, text = run_cmd(["coqchk", "-silent", "-o", "-Q", ".", "Pandora", f"Pandora.Props.{prop_id}"], timeout, cwd=COQ)
+    axioms = []
+    m = re.search(r"\* Axioms:(.*?)(?:\n\* |\Z)", text, re.S)
+    if m:
+        axioms = [l.strip() for l in m.group(1).strip().split("\n") if l.strip() and l.strip() != "<none>"]
+    return rc == 0, axioms, text[-1500:]
 
 
 def q_of(v):
